@@ -107,7 +107,35 @@ class C03(Spec):
         return lattice_units('checks/c03.cpp', shards=sh)
 
 
-_SPECS = {'C01': C01, 'C02': C02, 'C03': C03}
+FREE_FN = {1: 'coeffs', 2: 'data', 3: 'identity(X)', 4: 'Identity<G>()', 5: 'zero(t)', 6: 'Zero<T>()', 7: 'random(X)', 8: 'Random<>()', 9: 'random(t)',
+           10: 'inverse(X)', 11: 'rplus(X,t)', 12: 'lplus(X,t)', 13: 'plus(X,t)', 14: 'rminus(X,Y)', 15: 'lminus(X,Y)', 16: 'minus(X,Y)', 17: 'lift(X)',
+           18: 'log(X)', 19: 'retract(t)', 20: 'exp(t)', 21: 'compose(X,Y)', 22: 'between(X,Y)', 23: 'act(X,v)',
+           30: 'inverse(X,J)', 31: 'rplus(X,t,J,J)', 32: 'lplus(X,t,J,J)', 33: 'plus(X,t,J,J)', 34: 'rminus(X,Y,J,J)', 35: 'lminus(X,Y,J,J)',
+           36: 'minus(X,Y,J,J)', 37: 'log(X,J)', 38: 'exp(t,J)', 39: 'compose(X,Y,J,J)', 40: 'between(X,Y,J,J)', 41: 'act(X,v,J,J)'}
+
+
+class C04(Spec):
+    design_ref = 'DESIGN.md 4/C04'
+    level_text = ('every (element, tangent) and (element, element) pair of the reduced lattices is pushed through rplus/lplus/rminus/lminus/between of the real code and compared '
+                  'with the documented compositions evaluated by the reference model (matrix product, expm, Newton log); every alias (operators, plus/minus, tangent-side forms, '
+                  'Map/Map<const> operands, every free function of functions.h with and without Jacobian arguments) is compared with its canonical member, bit for bit')
+    rule = ('cells: X x t (definitions of rplus/lplus, 12 aliases, (X+t)-X=t) and X x Y (rminus/lminus/between definitions and principal values, X+(Y-X)=Y, 9 aliases) over the reduced '
+            'element lattice x tiny (quick) / reduced (thorough) second operand; free functions: 64 input pairs x 35 entries per group and scalar; non-trivial = both rotation angles non-zero')
+    explanation = 'explicit enumeration of operand pairs on the real code; oracle = documented composition evaluated in extended precision; aliases against the canonical member'
+    assumptions = COMMON_ASSUMPTIONS
+
+    def units(self, tier):
+        sh = (lambda g, s: 8 if 'SGal3' in g else (4 if g in ('SE_2_3', 'SE3') else 2)) if tier == 'thorough' else (lambda g, s: 4 if 'SGal3' in g else (2 if g in ('SE_2_3', 'SE3') else 1))
+        us = lattice_units('checks/c04.cpp', shards=sh)
+        free = lattice_units('checks/c04_free.cpp', defs=['VF_FN_ALL=1'])
+        for u in free:
+            u.name = u.name + '/free'
+            u.defs = [d.replace('VF_UNIT="%s"' % u.name[:-5], 'VF_UNIT="%s"' % u.name) for d in u.defs]
+            u.bisect = [('fn%02d_%s' % (k, v), ['VF_FN=%d' % k]) for k, v in sorted(FREE_FN.items())]
+        return us + free
+
+
+_SPECS = {'C01': C01, 'C02': C02, 'C03': C03, 'C04': C04}
 
 
 def get(prop):
